@@ -161,7 +161,7 @@ def discovery_variants(level, acc):
     """first exchange: matching / foreign message id, no bindings, empty
     engine id"""
     lv, method = level.split(":")
-    for variant in ("matching", "msgid+1", "msgid-foreign", "no-bindings", "empty-engine-id"):
+    for variant in ("matching", "msgid+1", "msgid-foreign", "msgid+2^31", "msgid-2^31", "msgid+2^32", "no-bindings", "empty-engine-id"):
         CLOCK.reset()
         world.reset_plugins()
         client, sender, ag = world.make_v3(DB, lv, method)
@@ -175,6 +175,12 @@ def discovery_variants(level, acc):
                 fields["msg_id"] += 1
             elif variant == "msgid-foreign":
                 fields["msg_id"] = 77
+            elif variant == "msgid+2^31":
+                fields["msg_id"] += 2**31
+            elif variant == "msgid-2^31":
+                fields["msg_id"] -= 2**31
+            elif variant == "msgid+2^32":
+                fields["msg_id"] += 2**32
             elif variant == "empty-engine-id":
                 fields["engine_id"] = b""
             return fields
@@ -190,7 +196,7 @@ def discovery_variants(level, acc):
         result, exc = ops.run_op(client, OPS["get"])
         facts = {"level": level, "discovery_variant": variant, "exception": ops.exc_sig(exc), "datagrams": len(ag.log)}
         viol = []
-        if variant in ("msgid+1", "msgid-foreign"):
+        if variant.startswith("msgid"):
             if ops.exc_sig(exc) != "InvalidResponseId":
                 viol.append({"kind": "foreign-discovery-message-id-not-refused", "detail": {**facts, "result": result}, "facts": facts})
             if len(ag.log) != 1:
